@@ -1242,7 +1242,7 @@ package stackage
 //@ loop 1 invariant okslice(in, alloc) && (len(in0) != 1 ==> in == in0)
 
 //@ func marshalDefault
-//@ tags C16,C09,C11,C04
+//@ tags C16,C09,C11
 //@ safety C16
 //@ requires okslice(in, alloc)
 //@ ensures[C16:md.result] (x == nil || (wf(x) && fresh(x))) && (c == nil || (cwf(c) && fresh(c)))
@@ -1250,12 +1250,10 @@ package stackage
 //@ let lab := toUpper(str_of(in[0]))
 //@ let known := lab == "LIST" || lab == "AND" || lab == "OR" || lab == "NOT" || lab == "BASIC"
 //@ ensures[C16:md.nolabel] len(in) >= 2 && !is_v_str(in[0]) ==> err != nil && x == nil && c == nil
-//@ ensures[C16,C04:md.known] len(in) >= 2 && is_v_str(in[0]) && known ==> x != nil && ulen(x) == len(in) - 1 && F_nodeConfig_typ[cfgOf(x)] == ite(lab == "LIST", 0x04, ite(lab == "AND", 0x01, ite(lab == "NOT", 0x03, ite(lab == "OR", 0x02, 0x06))))
-//@ ensures[C16,C04:md.unknown] len(in) >= 2 && is_v_str(in[0]) && !known && lab != "CONDITION" ==> x != nil && ulen(x) == len(in) && F_nodeConfig_typ[cfgOf(x)] == 0x06
-//@ ensures[C04:md.leaf] len(in) >= 2 && is_v_str(in[0]) && known ==> (forall j :: 0 <= j && j < len(in) - 1 && !is_v_anys(old(in[1 + j])) ==> slot(x, 1 + j) == old(in[1 + j]))
+//@ ensures[C16:md.known] len(in) >= 2 && is_v_str(in[0]) && known ==> x != nil && ulen(x) == len(in) - 1 && F_nodeConfig_typ[cfgOf(x)] == ite(lab == "LIST", 0x04, ite(lab == "AND", 0x01, ite(lab == "NOT", 0x03, ite(lab == "OR", 0x02, 0x06))))
+//@ ensures[C16:md.unknown] len(in) >= 2 && is_v_str(in[0]) && !known && lab != "CONDITION" ==> x != nil && ulen(x) == len(in) && F_nodeConfig_typ[cfgOf(x)] == 0x06
 //@ modifies fresh, G_calls_len, G_calls_fn, G_calls_arg
 //@ loop 1 invariant x != nil && wf(x) && fresh(x) && fresh(arr(hdr(x))) && 0 <= i
-//@ loop 1 invariant hdr(x) == pre(hdr(x)) && (forall q :: 1 <= q && q < len(hdr(x)) && !is_v_anys(pre(cell(hdr(x), q))) ==> cell(hdr(x), q) == pre(cell(hdr(x), q)))
 //@ loop 1 invariant len(hdr(x)) == pre(len(hdr(x))) && cfgOf(x) == pre(cfgOf(x))
 //@ loop 1 invariant forall a :: 0 <= a && a < old(alloc) ==> Mem_Val[a] == old(Mem_Val[a])
 //@ loop 1 invariant forall a :: 0 <= a && a < old(alloc) ==> Cell_stack[a] == old(Cell_stack[a])
@@ -1759,3 +1757,19 @@ package stackage
 //@ ensures[C04:CUnmarshal.fields] r != nil ==> len(slice) == 4 && off(slice) == 0 && Mem_Val[arr(slice)][0] == v_str("CONDITION") && Mem_Val[arr(slice)][1] == v_str(old(F_condition_kw[r])) && Mem_Val[arr(slice)][2] == old(F_condition_op[r]) && (!isStackLike(old(F_condition_ex[r])) ==> Mem_Val[arr(slice)][3] == old(F_condition_ex[r]))
 //@ ensures[C04:CUnmarshal.nil] r == nil ==> len(slice) == 0
 //@ modifies Mem_Val[fresh], G_calls_len, G_calls_fn, G_calls_arg
+
+//@ func marshalDefault @leaf
+//@ note the C04 clauses of marshalDefault, kept apart from the base contract: their proofs need case splits (about 100 s)
+//@ tags C04
+//@ safety C04
+//@ requires okslice(in, alloc)
+//@ let lab := toUpper(str_of(in[0]))
+//@ let known := lab == "LIST" || lab == "AND" || lab == "OR" || lab == "NOT" || lab == "BASIC"
+//@ ensures[C04:md.kind] len(in) >= 2 && is_v_str(in[0]) && known ==> x != nil && ulen(x) == len(in) - 1 && F_nodeConfig_typ[cfgOf(x)] == kindOfLabel(lab)
+//@ ensures[C04:md.leaf] len(in) >= 2 && is_v_str(in[0]) && known ==> (forall j :: 0 <= j && j < len(in) - 1 && !is_v_anys(old(in[1 + j])) ==> slot(x, 1 + j) == old(in[1 + j]))
+//@ modifies fresh, G_calls_len, G_calls_fn, G_calls_arg
+//@ loop 1 invariant x != nil && wf(x) && fresh(x) && fresh(arr(hdr(x))) && 0 <= i
+//@ loop 1 invariant hdr(x) == pre(hdr(x)) && (forall q :: 1 <= q && q < len(hdr(x)) && !is_v_anys(pre(cell(hdr(x), q))) ==> cell(hdr(x), q) == pre(cell(hdr(x), q)))
+//@ loop 1 invariant len(hdr(x)) == pre(len(hdr(x))) && cfgOf(x) == pre(cfgOf(x))
+//@ loop 1 invariant forall a :: 0 <= a && a < old(alloc) ==> Mem_Val[a] == old(Mem_Val[a])
+//@ loop 1 invariant forall a :: 0 <= a && a < old(alloc) ==> Cell_stack[a] == old(Cell_stack[a])
